@@ -1337,3 +1337,58 @@ package sarama
 //@   callsite pkg.decode: requires[records_payload] $buf == recBuffer
 //@   ensures[records_fully_consumed] err == nil && !b.PartialTrailingRecord ==> b.recordsChecked == 1
 //@   decoder_frame
+
+// ---------------------------------------------------------------------------------------------
+// admin.go: the controller-bound operation closures (C19): success only if the broker reported none;
+// NOT_CONTROLLER refreshes the controller (once) before the error is returned for the retry wrapper.
+
+//@ ghost field clusterAdmin.refreshes int
+
+//@ func (ca *clusterAdmin) Controller() trusted
+//@   returns b, err
+//@   modifies nothing
+//@ func (ca *clusterAdmin) refreshController() trusted
+//@   returns b, err
+//@   effect ca.refreshes == old(ca.refreshes) + 1
+//@   modifies ca.refreshes
+//@ func (b *Broker) CreateTopics(request) trusted
+//@   returns rsp, err
+//@   ensures err == nil ==> rsp != nil
+//@   modifies nothing
+//@ func (b *Broker) DeleteTopics(request) trusted
+//@   returns rsp, err
+//@   ensures err == nil ==> rsp != nil
+//@   modifies nothing
+//@ func (b *Broker) CreatePartitions(request) trusted
+//@   returns rsp, err
+//@   ensures err == nil ==> rsp != nil
+//@   modifies nothing
+
+//@ func clusterAdmin.CreateTopic#lit0() props C19
+//@   returns e
+//@   per_return
+//@   ensures[success_only_if_broker_said_so] e == nil ==> rsp != nil && haskey(rsp.TopicErrors, topic) && rsp.TopicErrors[topic].Err == ErrNoError
+//@   ensures[refresh_on_not_controller] rsp != nil && ok && topicErr.Err == ErrNotController ==> ca.refreshes == old(ca.refreshes) + 1 && e == topicErr
+//@   ensures[other_errors_unchanged] rsp != nil && ok && topicErr.Err != ErrNoError && topicErr.Err != ErrNotController ==> ca.refreshes == old(ca.refreshes) && e == topicErr
+//@   ensures[incomplete] rsp != nil && err == nil && !ok ==> e == ErrIncompleteResponse
+
+//@ func clusterAdmin.DeleteTopic#lit0() props C19
+//@   returns e
+//@   per_return
+//@   ensures[success_only_if_broker_said_so] e == nil ==> rsp != nil && haskey(rsp.TopicErrorCodes, topic) && rsp.TopicErrorCodes[topic] == ErrNoError
+//@   ensures[refresh_on_not_controller] rsp != nil && ok && topicErr == ErrNotController ==> ca.refreshes == old(ca.refreshes) + 1 && e == topicErr
+//@   ensures[other_errors_unchanged] rsp != nil && ok && topicErr != ErrNoError && topicErr != ErrNotController ==> ca.refreshes == old(ca.refreshes) && e == topicErr
+
+//@ func clusterAdmin.CreatePartitions#lit0() props C19
+//@   returns e
+//@   per_return
+//@   ensures[success_only_if_broker_said_so] e == nil ==> rsp != nil && haskey(rsp.TopicPartitionErrors, topic) && rsp.TopicPartitionErrors[topic].Err == ErrNoError
+//@   ensures[refresh_on_not_controller] rsp != nil && ok && topicErr.Err == ErrNotController ==> ca.refreshes == old(ca.refreshes) + 1 && e == topicErr
+//@   ensures[other_errors_unchanged] rsp != nil && ok && topicErr.Err != ErrNoError && topicErr.Err != ErrNotController ==> ca.refreshes == old(ca.refreshes) && e == topicErr
+
+//@ func isErrNoController(err) props C19
+//@   returns r
+//@   ensures[kerror] dyntype(err) == typeid(KError) && err != nil ==> r == (err == ErrNotController)
+//@   ensures[topic_error] dyntype(err) == typeid(*TopicError) && err != nil ==> r == (err.(*TopicError).Err == ErrNotController)
+//@   ensures[topic_partition_error] dyntype(err) == typeid(*TopicPartitionError) && err != nil ==> r == (err.(*TopicPartitionError).Err == ErrNotController)
+//@   modifies nothing
